@@ -15,7 +15,7 @@ CLAIMED = {
     "C05": {
         "text": "Machine-checked theorem over all kernel answers (hence all trees, faults, attackers, feature sets): every call "
                 "of every modelled libpathrs operation satisfies the per-call discipline (single component, real dirfd, "
-                "O_NOFOLLOW/AT_SYMLINK_NOFOLLOW, O_CLOEXEC, O_NOCTTY, confined openat2). The same predicate and a model-free "
+                "O_NOFOLLOW/AT_SYMLINK_NOFOLLOW, O_CLOEXEC, O_NOCTTY -- for openat2 as well: O_NOCTTY unless O_PATH/O_DIRECTORY, F-R --, confined openat2). The same predicate and a model-free "
                 "monitor judge every real call of the freshly built library; recorded traces are replayed exactly through the model.",
         "note": COMMON_NOTE + "Exempt calls are the closed list inside disc_b (procfs constructors, FrozenFd error-text calls, "
                 "thread-self probes) plus Root::open and the two feature probes, which run outside the judged regions.",
@@ -204,10 +204,20 @@ CLAIMED = {
                 "decode; the parent resolution equals the kernel's (C01); executed on the static kernel over any well-formed tree, every "
                 "single-entry operation of the emulated backend -- create (dir, file, fifo, device: with the exact mode word, type bits from the "
                 "InodeType alone; symlink; hard link), create_file, remove_file/remove_dir, rename -- arrives at its *at call on (descriptor "
-                "open on the object the in-root walk of the parent ends on, last component), for both parents where there are two. Runtime: snapshot difference of every successful call = exactly "
-                "(raw-openat2 resolution of the parent, final name); final symlinks not followed; create_file's fd is the file under that name.",
-        "note": COMMON_NOTE + "The effect of the single *at call itself is the kernel's; equality of the resulting tree is judged by the snapshot oracle.",
-        "technique": "Coq proof (path-split theorems for all byte strings, program equivalence) + snapshot differential against raw openat2 + trace replay",
+                "open on the object the in-root walk of the parent ends on, last component), for both parents where there are two. "
+                "FULL FUNCTIONAL STATEMENT on a dynamic kernel model (tree + descriptor table, the tree-changing calls have their effect): for BOTH "
+                "backends, executing create (dir / file / fifo / device / symlink / hard link), create_file, remove_file, remove_dir, rename ends in "
+                "exactly the state the corresponding *at call produces on (object the in-root walk of the parent ends on, final name) -- that tree, "
+                "or the old tree and that errno; the parent descriptor closed again, every other descriptor as it was; create_file's descriptor is "
+                "open on the very object now under that name (C14_*_exact_effect, through the bridge C14_bridge_static_to_dynamic: every program "
+                "that issues no tree-changing or directory-scan call runs on the dynamic kernel as on the static one). Runtime: snapshot difference "
+                "of every successful call = exactly (raw-openat2 resolution of the parent, final name); final symlinks not followed; create_file's "
+                "fd is the file under that name; tie T2d: every recorded call of these operations answered by the dynamic model as by the running "
+                "kernel, and the model's final tree = the real tree.",
+        "note": COMMON_NOTE + "The effect semantics of the *at calls (Dyn.create_sem / unlink_sem / link_sem / rename_sem / creat_sem) is a model "
+                "of Linux, tied by T2d on sampled executions (about 200 traces, 6-10k calls, 190 final trees per quick run), not proved; no modes, "
+                "owners or timestamps in the tree model (inode type, names, link bodies, parents only).",
+        "technique": "Coq proof (path-split theorems for all byte strings, program equivalence, refinement of the syscall programs on a dynamic kernel model to the *at call's effect) + snapshot differential against raw openat2 + trace replay incl. the dynamic model (T2d)",
     },
     "C12": {
         "text": "Machine-checked theorems over all kernel answers: mode bits outside 0o1777 are refused before any call; every mkdirat/openat "
@@ -215,13 +225,21 @@ CLAIMED = {
                 "balanced on both backends (the emulated partial lookup with its symlink stack of Rc handles included); no unknown panic; the "
                 "directories are created as ONE chain -- mkdir_all is checks, partial lookup, re-open, then a loop in which every mkdirat is on the "
                 "directory the chain has reached and the only open is openat(that directory, that very name, O_NOFOLLOW|O_DIRECTORY), whose result "
-                "is where the chain continues; nothing else changes the tree. Runtime: whole-sandbox snapshots -- on success the handle equals the kernel's raw in-root resolution "
+                "is where the chain continues; nothing else changes the tree. FUNCTIONAL STATEMENT on the dynamic kernel model: the creation loop, "
+                "executed, computes the pure function mk_spec of the tree (C12_loop_computes_spec); for ANY tree mk_spec only adds directories under "
+                "names that did not exist -- nothing removed or modified, also when it fails -- and on success every component exists and the result "
+                "is the descent along them (C12_spec_post, C12_extends_changes_nothing_else); the partial lookup of the kernel backend is the first "
+                "ancestor the kernel's walk resolves (C12_partial_lookup_kernel_backend); end to end for the kernel backend: mkdir_all = partial "
+                "lookup, re-open (C09), mk_spec (C12_mkdir_all_kernel_backend). Runtime: whole-sandbox snapshots -- on success the handle equals the kernel's raw in-root resolution "
                 "of the path in the resulting tree, the new entries form exactly one chain of directories with mode&~umask (|setgid), nothing "
                 "else changed; on failure only one chain of directories was added; racing callers on equal/overlapping paths all succeed "
                 "with handles to the directories now at their paths.",
-        "note": COMMON_NOTE + "Partial: the functional post-condition ('exactly the missing directories') and convergence under races are "
-                "decided by the snapshot and racing runs (real scheduler), not by a theorem (no mutable FS model).",
-        "technique": "Coq proof (argument checks, discipline, balance; all responses) + snapshot differential against raw openat2 + racing callers + trace replay",
+        "note": COMMON_NOTE + "Partial: the end-to-end functional theorem is proved for the kernel backend; for the emulated backend the loop "
+                "theorem applies but its partial lookup (symlink stack) is tied by the two-backend differential (C04) and T1 only. Modes are not in "
+                "the tree model (the mode handed to mkdirat is part of the all-answers theorems; umask/setgid are judged at run time). Convergence "
+                "under races is decided by the racing runs (real scheduler). The dynamic kernel model is tied by T2d (every answer of recorded "
+                "mkdir_all executions and the final tree).",
+        "technique": "Coq proof (argument checks, discipline, balance: all responses; refinement of the creation loop and of the kernel backend's mkdir_all on a dynamic kernel model to a pure function of the tree) + snapshot differential against raw openat2 + racing callers + trace replay incl. T2d",
     },
     "C15": {
         "text": "Machine-checked for ALL uids, modes and sysctl values: the emulated rule equals the kernel rule at trailing positions and -- "
